@@ -389,3 +389,32 @@ pub fn calls_between_choices(inner: B, outer: B, h: U, g: U, third: bool, imm: b
     p.roots = vec![root];
     p
 }
+
+/// A program in which about `half` values are live at the same time:
+/// c[0] = x, c[i+1] = 0.999 c[i] + k_i, result sum_i c[i] * c[i + half]
+/// (optionally under min(.., 1e30) so that there is one choice)
+pub fn huge_prog(half: usize, with_choice: bool) -> Prog {
+    let mut p = Prog::default();
+    let mut cur = p.push(POp::Var(0));
+    let mut c = vec![];
+    for i in 0..2 * half {
+        c.push(cur);
+        let k = p.push(POp::Const(0.999));
+        let m = p.push(POp::Bin(B::Mul, cur, k));
+        let k2 = p.push(POp::Const(0.001 * (i as f32 + 1.0)));
+        cur = p.push(POp::Bin(B::Add, m, k2));
+    }
+    let mut sum = p.push(POp::Bin(B::Mul, c[0], c[half]));
+    for i in 1..half {
+        let q = p.push(POp::Bin(B::Mul, c[i], c[i + half]));
+        sum = p.push(POp::Bin(B::Add, sum, q));
+    }
+    let r = if with_choice {
+        let big = p.push(POp::Const(1e30));
+        p.push(POp::Bin(B::Min, sum, big))
+    } else {
+        sum
+    };
+    p.roots = vec![r];
+    p
+}
